@@ -10,6 +10,51 @@ import traceback
 from .model import AnalysisError
 
 
+def _check_with_undecided(mod, prop: str, tier: str, prog):
+    """Run mod.check; a rule function that raises Undecided (the code under analysis uses a construct outside the
+    evaluable subset of the analyser's interpreters) is replaced by a stub that records the fact, and the check is run
+    again so that every other rule is still decided.  An Undecided raised by check() itself is not recoverable."""
+    import sys
+    from .model import Undecided
+    from .report import Run
+    skipped = {}
+    while True:
+        run = Run(prop, tier)
+        patched = []
+        for (modname, fname), why in skipped.items():
+            m = sys.modules[modname]
+            orig = getattr(m, fname)
+
+            def stub(run_, *a, _f=fname, _w=why, **k):
+                run_.undecided.append({"rule_function": _f, "reason": _w})
+                return None
+            setattr(m, fname, stub)
+            patched.append((m, fname, orig))
+        try:
+            mod.check(run, prog)
+            return run
+        except Undecided as e:
+            tb = e.__traceback__
+            frames = []
+            while tb is not None:
+                frames.append(tb.tb_frame)
+                tb = tb.tb_next
+            target = None
+            for i, fr in enumerate(frames):
+                if fr.f_code.co_name == "check" and fr.f_globals.get("__name__") == mod.__name__ and i + 1 < len(frames):
+                    nxt = frames[i + 1]
+                    nm, mn = nxt.f_code.co_name, nxt.f_globals.get("__name__", "")
+                    if mn.startswith("sa.rules.") and getattr(sys.modules.get(mn), nm, None) is not None and nxt.f_code.co_argcount >= 2:
+                        target = (mn, nm)
+                    break
+            if target is None or target in skipped or len(skipped) >= 8:
+                raise
+            skipped[target] = str(e)
+        finally:
+            for m, fname, orig in patched:
+                setattr(m, fname, orig)
+
+
 def _check(prop: str, tier: str) -> int:
     from .report import Run
     from .model import program
@@ -22,7 +67,7 @@ def _check(prop: str, tier: str) -> int:
     run = Run(prop, tier)
     try:
         prog = program()
-        mod.check(run, prog)
+        run = _check_with_undecided(mod, prop, tier, prog)
         if tier == "thorough":
             from . import battery
             battery.run_for(run, prop)
